@@ -1,8 +1,9 @@
 CONSTANTS
-  Ids = {"a", "b"}
-  Rich = 1
-  MaxEdits = 1
+  Ids = {"a"}
+  Rich = 0
+  MaxEdits = 2
   MaxFails = 1
+  Single = TRUE
 INIT IInit
 NEXT INext
 INVARIANTS TypeOK AcceptedStep AcceptedEnd AcceptedDestroy AcceptedDeletionsEnd
